@@ -157,6 +157,14 @@ def _s1_jobs(tier, mk, quick_n5_max_edges, with_routes, n5_routes=True):
         jobs.append(mk("S1-N5-all-entries" + ("-direct-reloaded-aliased" if BOTH else ""), 5, None, exp=expected(5, None), budget=3000.0, routes=BOTH))
         jobs.append(mk("S1-N5-entry-b0-z-names", 5, 0, exp=expected(5, 0), prefix="z"))
         jobs.append(mk("F6-N6-entry-b0-le7-edges", 6, 0, max_edges=7, budget=600.0, required=False))
+        # shape-directed families (spaces.loop_feature): the solver supplies the graphs with the rare shape
+        jobs.append(mk("F6-two-headers-two-exits-le9-edges", 6, 0, max_edges=9, budget=400.0, required=False,
+                       features={"headers": 2, "entries": 2, "exit_targets": 2}))
+        jobs.append(mk("F6-loop-exits-into-another-loop-le9-edges", 6, 0, max_edges=9, budget=400.0, required=False,
+                       features={"exit_targets": 2, "exit_is_cyclic": True, "min_size": 2}))
+        jobs.append(mk("F7-three-exit-loop-le10-edges", 7, 0, max_edges=10, budget=400.0, required=False,
+                       features={"exit_targets": 3, "exiting": 2}))
+        jobs.append(mk("F6-N6-entry-b0-all-graphs-budgeted", 6, 0, budget=900.0, required=False))
         for nm, sk in (("id", [0, 1, 2, 3, 4, 5, 6]), ("rev", [0, 6, 5, 4, 3, 2, 1]), ("ilv", [0, 2, 4, 6, 1, 3, 5])):
             jobs.append(mk(f"F7-N7-chain-{nm}-le9-edges", 7, 0, max_edges=9, skeleton=sk, budget=300.0, required=False))
     return jobs
